@@ -512,6 +512,11 @@ def _process(cls: t.Type[PaneBase], opts: PaneOptions):
         if '__init__' in cls.__dict__:
             raise TypeError(f"Can't overwrite __init__ function in class {cls.__name__}")
         _make_init(cls, fields)
+    if '__origin__' in cls.__dict__:
+        # a subscripted class (`G[int]`) has the fields of `G`: it inherits `G`'s comparison
+        # and hash methods, generated or written by the user, rather than getting fresh ones
+        return cls
+
     # (decided before `__eq__` is generated: `__hash__ = None` in the class body is explicit
     # unless the class body also defines `__eq__`, as in the standard library)
     _maybe_make_hash(cls, fields)
